@@ -170,11 +170,12 @@ public:
         break;
       }
 
-      // If this is a newline continuation, skip it and all leading space.
+      // If this is a newline continuation, skip it and all leading spaces (like
+      // Ninja, only blanks: a tab is part of the text).
       int c = *pos;
       if (c == '\n') {
         ++pos;
-        while (pos != end && isspace(*pos))
+        while (pos != end && *pos == ' ')
           ++pos;
         continue;
       }
